@@ -426,6 +426,24 @@ func (s *schemaCtx) paths(sch map[string]any, prefix []string, out map[string]bo
 	}
 }
 
+// c17Shapes lists the other YAML *structures* a leaf of the given kind is fed with (scalar / list / map). Scalar
+// typing (a number, a boolean or nothing where a string is expected, a float for an integer) is not part of the
+// alphabet: there the YAML decoder converts silently, which is yaml.v3's leniency and not a documented nfpm setting;
+// the places where the documentation itself writes a number are covered by part docs-example.
+func c17Shapes(kind string) []string {
+	switch kind {
+	case "string", "strptr":
+		return []string{"list", "map"}
+	case "strlist":
+		return []string{"scalar-string", "map"}
+	case "strmap":
+		return []string{"scalar-string", "list"}
+	case "bool", "int", "time":
+		return []string{"list", "map"}
+	}
+	return nil
+}
+
 func parserPaths() map[string]cfgLeaf {
 	leaves, _ := configShape()
 	out := map[string]cfgLeaf{}
@@ -556,6 +574,16 @@ func enumC17(env *engine.Env, yield func(any) bool) {
 	}
 	if !yield(C17Case{Part: "schema-paths"}) {
 		return
+	}
+	// value shapes: every leaf given a value of another YAML shape. Whatever the parser takes, the schema must take
+	// (the reverse is not required: a schema may be stricter about what it documents, but here the property is
+	// "accepted and buildable => validates")
+	for _, k := range keys {
+		for _, sh := range c17Shapes(pp[k].Kind) {
+			if !yield(C17Case{Part: "shape", Path: pp[k].Path, Kind: pp[k].Kind, Value: sh}) {
+				return
+			}
+		}
 	}
 	// the example configurations of the documentation, as written
 	if !yield(C17Case{Part: "docs-example"}) {
@@ -814,6 +842,52 @@ func checkC17(env *engine.Env, ci any) engine.Outcome {
 				who = "the parser rejects it, the schema accepts it"
 			}
 			viol("schema:undefined-key-verdicts-differ:"+lvl, "an undefined key at level %s: %s\n%s", lvl, who, fixture.Doc(d).YAML())
+		}
+	case "shape":
+		key := strings.Join(c.Path, ".")
+		var val any
+		switch c.Value {
+		case "scalar-string":
+			val = "x"
+		case "int":
+			val = 7
+		case "float":
+			val = 1.5
+		case "bool":
+			val = true
+		case "list":
+			val = []any{"x"}
+		case "map":
+			val = map[string]any{"K": "v"}
+		case "null":
+			val = nil
+		case "numeric-string":
+			val = "7"
+		}
+		d := docWith(c17Base(), c.Path, val)
+		if len(c.Path) > 1 && c.Path[0] == "contents" && c.Path[len(c.Path)-1] != "dst" {
+			setDeep(d, []string{"contents", "[]", "dst"}, "/x")
+		}
+		pOK, _, serrs, harness := judge(d)
+		if harness != "" {
+			out.HarnessError = harness
+			return out
+		}
+		out.Key = fmt.Sprintf("shape:%s:%s:%s:%v:%v", key, c.Kind, c.Value, pOK, len(serrs) == 0)
+		if !pOK {
+			return out
+		}
+		out.Nontrivial = true
+		if len(serrs) > 0 {
+			cls := c.Value + "-for-" + c.Kind
+			switch {
+			case (c.Kind == "string" || c.Kind == "strptr") && (c.Value == "int" || c.Value == "float" || c.Value == "bool"):
+				// one finding class: YAML scalars of any type are converted into string settings by the parser
+				cls = "number-or-bool-for-string"
+			case c.Value == "null":
+				cls = "null"
+			}
+			viol("schema:rejects-accepted-shape:"+cls, "%s given as %s (%v) is accepted by the parser, the schema rejects the document: %v", key, c.Value, val, serrs)
 		}
 	case "docs-example":
 		b, err := os.ReadFile(filepath.Join(env.Repo, "www/docs/configuration.md"))
